@@ -389,6 +389,30 @@ func serGen(g *G, tier string) []M {
 			ops = append(ops, M{"op": "serSeq", "fmt": string(f), "docs": []any{M{"doc": d, "nils": []any{}, "indent": 2.0}, M{"doc": d, "nils": []any{}, "indent": 2.0}}})
 		}
 	}
+	// nodes without identifier, without name, without both (one and two of them): twice in a
+	// sequence, in every format
+	for k := 0; k < 4; k++ {
+		d := enumDoc(func(app, lib, edge M) {
+			if k%2 == 0 {
+				lib["id"] = ""
+				edge["tos"] = []any{""}
+			}
+			if k >= 1 {
+				delete(lib["a"].(M), "Name")
+			}
+			if k == 3 {
+				lib["id"] = ""
+				edge["tos"] = []any{}
+			}
+		})
+		if k == 3 {
+			nl := d["nl"].(M)
+			nl["nodes"] = append(asList(nl["nodes"]), M{"id": "", "type": 1.0, "a": M{}})
+		}
+		for _, f := range serFormats {
+			ops = append(ops, M{"op": "serSeq", "fmt": string(f), "docs": []any{M{"doc": d, "nils": []any{}, "indent": 2.0}, M{"doc": d, "nils": []any{}, "indent": 2.0}}})
+		}
+	}
 	for i := 0; i < n; i++ {
 		good := g.serDoc()
 		gd := DocOf(good)
